@@ -195,6 +195,9 @@ def _atoms(e, pol, out):
     out.add((norm(e), 'Truthy' if pol else 'Falsy', ''))
 
 
+_depth = [0]
+
+
 def must_atoms(g, node, fnode, params=()):
     """canonical elementary conditions that hold whenever `node` executes (from the tests that guard it on every path).  A local defined by an
     observer call (`has_room = q.full() is False`) stands for that observation only if nothing that can change it (another call) lies between
@@ -256,6 +259,32 @@ def must_atoms(g, node, fnode, params=()):
         for lab, pol in (('true', True), ('false', False)):
             if guarded_by_edge(g, node, x, lab):
                 _atoms(expand_locals(by_reaching_def(x.ast, x), fnode, params=params, observers=True, fresh=fresh), pol, out)
+                # a flag that starts False and is set by one conditional definition (`wanted = False` ... `if G: wanted = E` ... `if wanted:`): being true at the test
+                # means that definition was taken - its guards held and E was true there
+                t_ast, neg = x.ast, False
+                while isinstance(t_ast, ast.UnaryOp) and isinstance(t_ast.op, ast.Not):
+                    t_ast, neg = t_ast.operand, not neg
+                if isinstance(t_ast, ast.Name) and t_ast.id not in params and (pol != neg) and _depth[0] < 3:
+                    ds = list(rd[x].get(t_ast.id, set()))
+                    vals = [(d, valmap.get(d)) for d in ds]
+                    falsy = [d for d, v in vals if isinstance(v, ast.Constant) and not v.value]
+                    live = [(d, v) for d, v in vals if d not in falsy]
+                    if falsy and len(live) == 1 and isinstance(live[0][1], (ast.Compare, ast.BoolOp, ast.UnaryOp)) and live[0][0][0] != 'param':
+                        dn = byid.get(live[0][0][0])
+                        v = live[0][1]
+                        if dn is not None and not any(isinstance(y, ast.Call) for y in ast.walk(v)):
+                            # nothing that can change what E looked at lies between the definition and the test
+                            fwd = g.reachable([m_ for m_, _l in g.succ[dn]], avoiding=[dn])
+                            bwd = g.reachable([m_ for m_, _l in g.pred[x]], avoiding=[dn], forward=False)
+                            between = (fwd & bwd) - {dn, x}
+                            quiet = all(m_.kind in ('entry', 'exit', 'xexit', 'def') or not any(True for _c in m_.calls()) for m_ in between)
+                            if quiet:
+                                _atoms(expand_locals(v, fnode, params=params, observers=True, fresh=fresh), True, out)
+                                _depth[0] += 1
+                                try:
+                                    out |= must_atoms(g, dn, fnode, params=params)
+                                finally:
+                                    _depth[0] -= 1
     return out
 
 
